@@ -479,6 +479,8 @@ func (e *Engine) verifyLemma(lm *Lemma) *FuncReport {
 	if lm.Induction == "" {
 		rq, en := stmt(consts)
 		c.assume(tTrue, rq)
+		can := c.oblige("canary", ":lemma", tTrue, tFalse, token.NoPos, "hypotheses of the lemma are consistent")
+		can.Expect = "sat"
 		for i, part := range splitConj(en) {
 			c.oblige("lemma", fmt.Sprintf("#%d", i+1), tTrue, part, token.NoPos, lm.Name)
 		}
@@ -495,9 +497,14 @@ func (e *Engine) verifyLemma(lm *Lemma) *FuncReport {
 		// base case: v == from
 		c.assume(tTrue, rq)
 		baseCond := tEq(v.T, lm.From)
+		can := c.oblige("canary", ":lemma-base", baseCond, tFalse, token.NoPos, "hypotheses of the base case are consistent")
+		can.Expect = "sat"
+		nfb := len(c.facts)
 		for i, part := range splitConj(en) {
 			c.oblige("lemma-base", fmt.Sprintf("#%d", i+1), baseCond, part, token.NoPos, lm.Name+" base")
+			c.assume(baseCond, part)
 		}
+		c.facts = c.facts[:nfb]
 		// step: v > from, IH at v-1 (generalized parameters universally quantified)
 		ih := map[string]Sc{}
 		var qv [][2]string
@@ -511,14 +518,36 @@ func (e *Engine) verifyLemma(lm *Lemma) *FuncReport {
 			qv = append(qv, [2]string{n, s.S})
 		}
 		ih[lm.Induction] = Sc{tSub(v.T, "1"), v.S}
-		irq, ien := stmt(ih)
+		_, ien := stmt(ih)
+		// hypotheses of the induction hypothesis: only the requires clauses that change under the
+		// substitution n := n-1 (the others are literally the lemma's own hypotheses, already assumed)
+		var irqs []string
+		for _, r := range lm.Requires {
+			orig := mkEnv(consts).evalBool(r.E)
+			sub := mkEnv(ih).evalBool(r.E)
+			if orig != sub {
+				irqs = append(irqs, sub)
+			}
+		}
+		irq := tAnd(irqs...)
 		ihT := tForall(qv, tImp(irq, ien))
 		stepCond := tGt(v.T, lm.From)
 		c.facts = c.facts[:nf]
 		c.assume(tTrue, rq)
 		c.assume(stepCond, ihT)
+		can2 := c.oblige("canary", ":lemma-step", stepCond, tFalse, token.NoPos, "hypotheses of the induction step (with the induction hypothesis) are consistent")
+		can2.Expect = "sat"
+		var cases []string
+		if len(lm.Splits) > 0 {
+			env := mkEnv(consts)
+			for _, sp := range lm.Splits {
+				cases = append(cases, env.evalBool(sp.E))
+			}
+		}
 		for i, part := range splitConj(en) {
-			c.oblige("lemma-step", fmt.Sprintf("#%d", i+1), stepCond, part, token.NoPos, lm.Name+" step")
+			o := c.oblige("lemma-step", fmt.Sprintf("#%d", i+1), stepCond, part, token.NoPos, lm.Name+" step")
+			o.Split = cases
+			c.assume(stepCond, part) // later conjuncts may use earlier (proved) ones
 		}
 	}
 	rep.Status = "generated"
@@ -589,7 +618,7 @@ func (e *Engine) smtText(o *Oblig, extra string, splitCase string) string {
 	}
 	for _, n := range []int{2, 3} {
 		kn := fmt.Sprintf("key!%d", n)
-		if !strings.Contains(body, kn) {
+		if !strings.Contains(body, kn) && !strings.Contains(body, "tk!a") {
 			found := false
 			for _, sf := range closure {
 				if strings.Contains(sf.decl, kn) || strings.Contains(strings.Join(sf.axioms, " "), kn) {
@@ -601,16 +630,24 @@ func (e *Engine) smtText(o *Oblig, extra string, splitCase string) string {
 			}
 		}
 		var sorts, vars, args []string
+		val := "0"
 		for i := 0; i < n; i++ {
 			sorts = append(sorts, SInt)
 			vars = append(vars, fmt.Sprintf("(k%d Int)", i))
 			args = append(args, fmt.Sprintf("k%d", i))
+			val = fmt.Sprintf("(+ (* 256 %s) k%d)", val, i)
 		}
+		// key!N(k0..) is the base-256 number of its (byte) arguments: injective on bytes; kept as a symbol so
+		// that quantified facts can be triggered on it
 		b.WriteString(fmt.Sprintf("(declare-fun %s (%s) Int)\n", kn, strings.Join(sorts, " ")))
+		b.WriteString(fmt.Sprintf("(assert (forall (%s) (! (= (%s %s) %s) :pattern ((%s %s)))))\n",
+			strings.Join(vars, " "), kn, strings.Join(args, " "), val, kn, strings.Join(args, " ")))
 		for i := 0; i < n; i++ {
-			b.WriteString(fmt.Sprintf("(declare-fun %s.%d (Int) Int)\n", kn, i))
-			b.WriteString(fmt.Sprintf("(assert (forall (%s) (! (= (%s.%d (%s %s)) k%d) :pattern ((%s %s)))))\n",
-				strings.Join(vars, " "), kn, i, kn, strings.Join(args, " "), i, kn, strings.Join(args, " ")))
+			div := int64(1)
+			for j := i + 1; j < n; j++ {
+				div *= 256
+			}
+			b.WriteString(fmt.Sprintf("(define-fun %s.%d ((k Int)) Int (mod (div k %d) 256))\n", kn, i, div))
 		}
 	}
 	// spec functions: declarations first, then definitions in order, then axioms
